@@ -9,13 +9,20 @@ LEAN_TARGETS = ['NdnProofs.Props.C01', 'NdnGen.C01']
 THEOREMS = [
     'Ndn.C01.make_data_wire', 'Ndn.C01.make_data_unsigned_wire', 'Ndn.C01.make_interest_wire',
     'Ndn.C01.sig_value_elem_rejects', 'Ndn.C01.made_data_is_one_element', 'Ndn.C01.parse_make_data_partial',
+    'Ndn.C01.make_interest_is_core', 'Ndn.C01.make_interest_params_wire', 'Ndn.C01.make_interest_plain_wire',
+    'Ndn.C01.parse_make_interest', 'Ndn.C01.parse_make_interest_params', 'Ndn.C01.parse_make_interest_plain',
+    'Ndn.Packet.interest_items', 'Ndn.Packet.parse_interest_value',
     'Ndn.Gen.C01.schemas_match',
 ]
 PARTIAL = {
     'Ndn.C01.parse_make_data_partial':
         'parse(make(x)) = x is proved for the Data Value fields through the generic round trip (C08) on the marker-free '
-        'field list; the offsets recorded by OffsetMarker fields and the Interest side of the round trip rest on the '
-        'correspondence (every generated packet is parsed back by both model and code and compared field by field)',
+        'field list (the statement with the five OffsetMarker pseudo-fields of a signed Data is '
+        'Ndn.C02.parsed_cover_is_signed_portion_data). The Interest side is proved by parse_make_interest (signed), '
+        'parse_make_interest_params (unsigned with ApplicationParameters) and parse_make_interest_plain, all for names '
+        'without a caller-supplied ParametersSha256Digest component; an Interest whose name already carries a digest '
+        'placeholder, and an unsigned Data with its markers, rest on the correspondence (every generated packet is parsed '
+        'back by both model and code and compared field by field)',
 }
 TRUSTED = [
     'C01: the signer is abstract (it reserves `reserved` bytes and writes `sig`); the bytes it wrote are recorded from the real signer by a proxy and handed to the model, so no cryptography is modelled',
@@ -31,11 +38,16 @@ LEVEL_TEXT = ('Lean 4 theorems about the model of make_data / make_interest: for
               'every signer behaviour (any reserved size, any signature not longer than it) the result is exactly one TLV '
               'element tlv(T, fields ++ tlv(SigValueType, sig)) - i.e. all declared lengths exact and shortest, the reserved '
               'but unused bytes removed - proved through shrink_spec for all sizes (the 253 / 65536 crossings are cases of the '
-              'proof). Decode-after-encode equality of the Data fields follows from the generic round trip of C08. The model is '
-              'tied to ndn_format_0_3.py by differential execution on generated packets, including wire bytes, signed bytes, '
-              'final name, and everything parse_* returns.')
-LEVEL_NOTE = ('Model = code is sampled. Signers are abstract (their output is recorded). The Interest decode half and marker '
-              'offsets are covered by correspondence + oracle, not by a theorem.')
+              'proof). Decode-after-encode equality of the Data fields follows from the generic round trip of C08. For '
+              'Interests (signed; unsigned with ApplicationParameters; plain) parse_interest of the made wire is proved to '
+              'return the final name (given name + digest component), every parameter value, ApplicationParameters, '
+              'SignatureInfo and the signature value, through a marker-aware run of the scan loop over the '
+              'InterestPacketValue field list (leading markers = 0, _sig_cover_start = _digest_cover_start = offset of '
+              'ApplicationParameters, _sig_cover_end unset). The model is tied to ndn_format_0_3.py by differential '
+              'execution on generated packets, including wire bytes, signed bytes, final name, and everything parse_* returns.')
+LEVEL_NOTE = ('Model = code is sampled. Signers are abstract (their output is recorded). Interests whose name already '
+              'carries a caller-supplied digest component and the marker offsets of an unsigned Data are covered by '
+              'correspondence + oracle, not by a theorem.')
 TECHNIQUE = 'Lean 4 proof (shrink_length correctness for all sizes + generic codec round trip) + model/implementation correspondence'
 DESIGN_REF = 'DESIGN.md section 7, C01'
 
